@@ -239,23 +239,62 @@ pub fn run(cfg: &Cfg) {
                 }
             }
         }
+        // bursts of registrations (more than any per-poll allowance a router might have), drained in one poll, with
+        // idle / silent / busy publishers among them, with and without shutdown behind the burst
+        for n in [1usize, 7, 15, 16, 17, 31, 32, 33, 64, 98] {
+            for lead in ["+t~p", "+tp", "+ti1,p", "+k_"] {
+                for other in ["+tp", "+t~p", "+k_"] {
+                    let burst: Vec<String> = (0..n).map(|i| if i % 5 == 4 { other.to_string() } else { "+k_".to_string() }).collect();
+                    for tail in ["poll poll poll", "close poll poll poll", "poll close poll poll"] {
+                        cases.push(format!("ps {lead} {} {tail}", burst.join(" ")));
+                    }
+                }
+            }
+        }
         let mut r = Rng::new(cfg.seed, "pubsub");
         for _ in 0..cfg.n(4000, 200_000) {
             let bias = *r.pick(&[0u64, 0, 3, 8]);
             cases.push(format!("ps {}", gen_scenario(&mut r, bias).join(" ")));
         }
     }
+    let mut hangs = 0;
     for c in &cases {
-        let evs: Vec<&str> = c.split(' ').skip(1).collect();
-        let o = run_scenario(&evs);
-        let mon = monitor(&o, &evs);
-        out.stat(&format!("sinks_{}", o.got.len().min(4)));
-        out.stat(&format!("streams_{}", o.stream_ended.len().min(4)));
-        if o.done { out.stat("finished"); }
-        if o.failed.iter().any(|f| *f) { out.stat("with_failed_sink"); }
-        if o.line.contains("skip") { out.stat("with_skipped_poll"); }
-        if o.accepted.is_empty() { out.mark_trivial(); }
-        out.case(&format!("ps {}", o.annotated.join(" ")), &o.line, mon);
+        // a router that spins costs one time-out per scenario: a handful of witnesses is enough; the rest of the
+        // run is not executed (and shows up as a divergence from the model, not as a property failure)
+        if hangs >= 8 { out.stat("not_run_after_8_hangs"); out.case(c, "NOT-RUN-AFTER-HANGS", Ok(())); continue; }
+        // every scenario runs in the guarded child: a poll that never returns is observed as a hang
+        match crate::childrun::guarded_timeout("ps", c.as_bytes(), std::time::Duration::from_secs(4)) {
+            crate::childrun::Outcome::Value(v) => {
+                let j: serde_json::Value = serde_json::from_str(&v).expect("child answer");
+                for k in j["stats"].as_array().unwrap() { out.stat(k.as_str().unwrap()); }
+                if j["trivial"].as_bool().unwrap() { out.mark_trivial(); }
+                let mon = match j["mon"].as_str() { Some("ok") => Ok(()), Some(w) => Err(w.to_string()), None => Err("?".into()) };
+                out.case(j["case"].as_str().unwrap(), j["line"].as_str().unwrap(), mon);
+            }
+            crate::childrun::Outcome::Hang => { hangs += 1; out.stat("impl_hung"); out.case(c, "HANG", Err("C09: a poll of the pub/sub router never returned (it loops without yielding)".into())); }
+            crate::childrun::Outcome::Panic(p) => out.case(c, "HARNESS-PANIC", Err(format!("harness panicked: {p}"))),
+            crate::childrun::Outcome::Abort(a) => out.case(c, "ABORT", Err(format!("process aborted: {a}"))),
+        }
     }
     out.finish();
+}
+
+/// child side: run one scenario, answer with one JSON line
+pub fn child(input: &[u8]) -> String {
+    let c = String::from_utf8_lossy(input).to_string();
+    let evs: Vec<&str> = c.split(' ').skip(1).collect();
+    let o = run_scenario(&evs);
+    let mon = monitor(&o, &evs);
+    let mut stats = vec![format!("sinks_{}", o.got.len().min(4)), format!("streams_{}", o.stream_ended.len().min(4))];
+    if o.done { stats.push("finished".into()); }
+    if o.failed.iter().any(|f| *f) { stats.push("with_failed_sink".into()); }
+    if o.line.contains("skip") { stats.push("with_skipped_poll".into()); }
+    if o.got.len() + o.stream_ended.len() >= 16 { stats.push("sockets_16_or_more".into()); }
+    serde_json::json!({
+        "case": format!("ps {}", o.annotated.join(" ")),
+        "line": o.line,
+        "mon": match mon { Ok(()) => "ok".to_string(), Err(w) => w },
+        "stats": stats,
+        "trivial": o.accepted.is_empty(),
+    }).to_string()
 }
